@@ -298,7 +298,9 @@ pub fn record_family(k: usize, wide: bool) -> Vec<RefRR> {
         r.rdata = RefRData::Empty { code: sch.code };
         out.push(r);
     }
-    for code in [10u16, 19, 99, 255, 65280, 65535] {
+    // opaque content only under codes the library has no typed variant for (opaque bytes under a
+    // typed code are not a value of that type; the list adapts when the library grows a type)
+    for code in [10u16, 19, 99, 255, 65280, 65535].into_iter().filter(|c| *c == 10 || crate::bind::library_has_no_variant_for(*c)) {
         for data in [&[0x80u8][..], &[1, 2, 3], &bytes_n(300, 4).0[..]] {
             out.push(rr("n.example", null_rdata(code, data)));
         }
